@@ -195,6 +195,17 @@ def run_case(ctx, k, rng):
             ctx.check("one trailing infinite bar ignored", first_bad is None, key=key, critical_pairs=di, **wit)
         except Exception as e:
             ctx.exception("one trailing infinite bar ignored", e)
+    elif sub == 3 and np.all(bars == np.round(bars)) and np.max(np.abs(bars)) < 2 ** 40:
+        # container / dtype of the input: integer array, nested list of python ints, float32 array of the same values
+        for form, arg in (("int64", bars.astype(np.int64)), ("list", bars.astype(np.int64).tolist()), ("float32", bars.astype(np.float32))):
+            if form == "float32" and (np.max(np.abs(bars)) >= 2 ** 20 or not np.array_equal(bars.astype(np.float32).astype(float), bars)):
+                continue        # single precision: only judged where sums and half-sums of the coordinates are exact in 24 bits
+            try:
+                df, cf = build(ctx, [arg], 0)
+                judge(ctx, bars, df, cf, tag=" [%s input]" % form)
+                ctx.note("form:" + form)
+            except Exception as e:
+                ctx.exception("constructs [%s input]" % form, e)
     elif sub == 2:
         # input order is irrelevant
         try:
